@@ -23,7 +23,7 @@ KANI = {
     "C09": {"complete": _ROUNDUP + _VU64, "bounded": {}},
     "C10": {"complete": _KEYTRAIT + _VU64 + _HASH_INT, "bounded": dict(_BYTES_CMP)},
     "C12": {"complete": ["u9_xorshift_is_documented_mixer", "u9_hasher_one_chunk", "u9_reference_matches_release_vectors",
-                         "c12_signatures_are_the_documented_ones"] + _HASH_INT + _VU64, "bounded": dict(_HASH_STR)},
+                         "c12_signatures_are_the_documented_ones", "u3_free_list_head_offset"] + _HASH_INT + _VU64, "bounded": dict(_HASH_STR)},
     "C13": {"complete": ["c13_signatures_pairwise_distinct", "c13_signatures_distinct_except_k2", "c12_signatures_are_the_documented_ones"], "bounded": {}},
     "C14": {"complete": [], "bounded": {"c14_bulk_get_is_elementwise_batch_2": "map <= 1 entry before the call, batch of 2 one-byte keys",
                                          "c14_bulk_delete_is_elementwise_batch_2_distinct": "map <= 1 entry, batch of 2 distinct one-byte keys",
@@ -69,7 +69,7 @@ _H = [["history", "1", "12", "300"], ["history", "5", "6", "800"], ["history", "
 _SC = [["scan", "128", "k25", "k312", "k911", "k303"], ["scan", "8", "a", "b", "c", "d", "e", "f", "g", "h", "i", "j"], ["scan", "4", "a"],
        ["scan", "64", "k1", "k2", "k3", "k4", "k5", "k6", "k7", "k8", "k9", "k10", "k11", "k12"]]
 BOUNDED_SCEN = {
-    "C01": _H + [["putget", "5000"], ["putsweep"]], "C02": [["reopen"], ["durable"], ["dbsync"]] + _H[:4], "C03": [["flushdur"], ["durable"], ["dbsync"]],
+    "C01": _H + [["putget", "5000"], ["putsweep"], ["keys"]], "C10": [["keys"]], "C02": [["reopen"], ["durable"], ["dbsync"]] + _H[:4], "C03": [["flushdur"], ["durable"], ["dbsync"]],
     "C04": _SC + _H[:2], "C05": _H + [["reuse"]], "C06": [["reuse"], ["putsweep"]] + _H, "C07": [["bufsize", "131072"], ["bufsize", "1000"], ["reopen"], ["scan", "4", "a"]] + _H[:1],
     "C08": _H, "C09": [["putget", "5000"], ["putget", "70000"], ["putsweep"]], "C12": [["reopen"]], "C13": [["sigmut"]], "C15": [["readonly"]],
     "C14": [["bulk"]], "C16": [["flushdur"]], "C17": [["stats"]], "C18": [["determ"]],
@@ -323,7 +323,7 @@ def check(prop, tier, args):
                     failures.append({"fn": "kani:" + h, "kind": "harness", "detail": "; ".join(st.get("failed", []))[:300],
                                      "oid": "kani:%s/check" % h, "backend": "kani", "message": "kani harness FAILED",
                                      "rendered": kani_excerpt(kr.get("_log", ""), h) + ("\n[counterexample extraction: %s]" % pb["error"] if pb.get("error") else ""),
-                                     "src": None, "witness": wit})
+                                     "src": None, "witness": wit, "cost": 0 if bounded else st.get("failed_checks", 1)})
                 else:
                     undecided.append("kani harness %s did not run" % h)
     # ------------------------------------------------------------------ bounded stand-in
@@ -368,8 +368,14 @@ def check(prop, tier, args):
     for u in undecided:
         lines.append("UNDECIDED property=%s %s" % (prop, u[:600]))
     # ------------------------------------------------------------------ evidence
-    cov["obligations"] = obligations
-    cov["discharged"] = discharged
+    # obligations that are recorded findings, or that belong to the statement of another property, are reported apart:
+    # `obligations` counts what this property claims, so that obligations == discharged exactly when nothing is open
+    n_apart = sum(f.get("cost", 1) for f, k in knowns) + len(not_attr)
+    cov["obligations_generated"] = obligations
+    cov["obligations_reported_apart"] = {"known_findings": [f["oid"] for f, k in knowns], "of_other_properties": not_attr}
+    obligations_claimed = max(obligations - n_apart, 0)
+    cov["obligations"] = obligations_claimed
+    cov["discharged"] = min(discharged, obligations_claimed)
     cov["checker_cmd"] = " ; ".join(checker_cmds) if checker_cmds else "none"
     cov["trusted_base"] = list(run.TRUSTED) + scan_assumptions(unit.text if unit else "")
     cov["functions_under_contract"] = fn_rows
@@ -385,7 +391,7 @@ def check(prop, tier, args):
     json.dump(ev, open(evpath, "w"), indent=1)
     for l in lines: print(l)
     print("SUMMARY property=%s tier=%s obligations=%d discharged=%d known=%d violations=%d undecided=%d wall=%.1fs" % (
-        prop, tier, obligations, discharged, len(knowns), len(violations), len(undecided), time.time() - t0))
+        prop, tier, cov["obligations"], cov["discharged"], len(knowns), len(violations), len(undecided), time.time() - t0))
     if violations: return 1
     if undecided: return 2
     return 0
